@@ -59,7 +59,13 @@ GenR == /\ stage = 0
            \E role \in {"server", "client"} :
               \E cut \in {-1} \cup (IF Len(pl) = 1 THEN 1..(Len(payload) + 1) ELSE {}) : out' = ScnR(role, payload, cut)
         /\ stage' = 9 /\ UNCHANGED pl
-Next == GenS \/ AddEntry \/ GenR
+\* every known identifier (and a reserved-form one) listed twice, whatever Entries is: a repeated known identifier is H3_SETTINGS_ERROR
+KnownIds == { FromInt(1), FromInt(6), FromInt(7), FromInt(8), FromInt(51), FromInt(727725890), FromInt(727725891) }
+GenDup == /\ stage = 0 /\ pl = <<>>
+          /\ \E role \in {"server", "client"}, id \in KnownIds \cup {FromInt(33)}, vs \in { <<Zero, Zero>>, <<FromInt(1), FromInt(64)>> } :
+                out' = ScnR(role, Entry(id, vs[1], FALSE) \o Entry(id, vs[2], FALSE), -1)
+          /\ stage' = 9 /\ UNCHANGED pl
+Next == GenS \/ AddEntry \/ GenR \/ GenDup
 Spec == Init /\ [][Next]_<<stage, pl, out>>
 Emit == stage # 9 \/ PrintT(<<"SCN", ToJson(out)>>)
 =============================================================================
